@@ -58,6 +58,9 @@ def main(tier, seed, prop=PROP):
         bound += [b"a" * n, b'"' + b"a" * (n - 2) + b'"', (b"a." * n)[:n - 1] + b"a", b"a" * (n - 1) + b".",
                   b'"' + b"a" * (n - 3) + b'\\"']
     jobs.append((LG.w_list, (exe, MODES, bound, opts, prop, "boundary", True, True)))
+    wb = LG.width_boundary_strings(tier)
+    for i in range(0, len(wb), 30):
+        jobs.append((LG.w_list, (exe, MODES, wb[i:i + 30], opts, prop, "width-boundaries", False, False)))
     # long random walks
     nrand = 60 if tier == "quick" else 600
     maxlen = 65536
